@@ -24,14 +24,14 @@ Section LogP.
     end.
   Definition call_vals (c : list (str * lval)) : list V := flat_map (fun tv => sig_vals (snd tv)) c.
 
-  (* a value ScalarToFile can format: scalars, and arrays with more than one entry *)
+  (* a value ScalarToFile can format: scalars, and arrays that have entries (np.nditer refuses empty arrays) *)
   Definition loggable (v : lval) : Prop :=
-    match v with LNum _ => True | LArr shape _ _ => 1 < lsize shape end.
+    match v with LNum _ => True | LArr shape _ _ => lsize shape <> 0 end.
 
   Lemma sig_cols_ok tag v : loggable v -> exists cols, sig_cols tag v = Ok cols.
   Proof.
     destruct v as [x|shape data fo]; cbn; intros H; [eauto|].
-    destruct (Z.ltb_spec 1 (lsize shape)); [eauto|lia].
+    destruct (Z.eqb_spec (lsize shape) 0); [contradiction|eauto].
   Qed.
 
   Lemma all_cols_ok c : Forall (fun tv => loggable (snd tv)) c -> exists cols, all_cols c = Ok cols.
@@ -52,7 +52,7 @@ Section LogP.
   Proof.
     destruct v as [x|shape data fo]; unfold Log.sig_cols, sig_vals.
     - intros E. inversion E. reflexivity.
-    - destruct (1 <? lsize shape); [|discriminate]. intros E. inversion E; subst. clear E.
+    - destruct (lsize shape =? 0); [discriminate|]. intros E. inversion E; subst. clear E.
       apply (opt_cols_snd (fun idx => nth_error data (Z.to_nat (offset shape idx)))).
   Qed.
 
@@ -91,7 +91,7 @@ Section LogP.
   Proof.
     destruct v as [x|s d f], w as [y|s' d' f']; unfold same_shape, Log.sig_cols; try tauto.
     - intros _ E1 E2. inversion E1; inversion E2. reflexivity.
-    - intros (<- & <- & Hl). destruct (1 <? lsize s); [|discriminate].
+    - intros (<- & <- & Hl). destruct (lsize s =? 0); [discriminate|].
       intros E1 E2. inversion E1; inversion E2; subst. clear E1 E2.
       apply (opt_cols_fst (fun idx => nth_error d (Z.to_nat (offset s idx)))
                           (fun idx => nth_error d' (Z.to_nat (offset s idx)))).
@@ -235,10 +235,9 @@ Section LogP.
     eapply Forall_impl; [|apply dec_digits; exact Hk]. intros x Hx E. subst. contradiction.
   Qed.
 
-  (* defect reproduced by the faithful model: an array with exactly one entry cannot be logged *)
-  Theorem single_entry_refuted sep st tag x fo rest_sigs rest_calls :
-    log_run sep st (((tag, LArr [1] [x] fo) :: rest_sigs) :: rest_calls) = Err TypeError.
-  Proof. reflexivity. Qed.
+  (* repaired defect F23: an array with exactly one entry is logged as one column named tag[0] *)
+  Theorem single_entry_logged tag x fo : sig_cols tag (LArr [1] [x] fo) = Ok [(tag ++ s2z "[0]", fmt x)].
+  Proof. destruct fo; reflexivity. Qed.
 End LogP.
 
 (* ---- C order: the multi-indices of a shape are visited with offsets 0, 1, 2, ... ---- *)
